@@ -2255,46 +2255,263 @@ Proof.
   destruct (H x H2) as (w & Hw). rewrite H3 in Hw. discriminate Hw.
 Qed.
 
-(* holds when vertAlign carries a value of its schema enumeration (decidable) *)
+(* The exact condition: every vertAlign entry that is not switched off has a word
+   within the first three characters of its value (val[:3] is the tag). *)
 Definition s_vertAlign : str := s2l "vertAlign"%string.
-Definition vert_okb (pr : list (str * option str)) : bool :=
-  match dict_get s_vertAlign pr with
-  | None => true
-  | Some v => ostr_eqb v (Some (s2l "superscript"%string))
-              || ostr_eqb v (Some (s2l "subscript"%string))
-              || ostr_eqb v (Some (s2l "baseline"%string))
-  end.
+Definition has_word (s : str) : Prop := exists w, first_word s = Ok w.
+Definition span_like (x : str) : Prop := exists y, x = w_span ++ s_space ++ y.
 
-Lemma vert_okb_vals_ok : forall pr, vert_okb pr = true -> vals_ok pr.
+Definition fw_okb (pr : list (str * option str)) : bool :=
+  forallb (fun kv => negb (str_eqb (fst kv) s_vertAlign) || is_off (snd kv)
+                     || nonempty (words (firstn 3 (ostr (snd kv))))) pr.
+
+Lemma entry_kind : forall k hf,
+  dict_get k xml2html_table = Some hf ->
+  (hf_container hf, hf_property hf) = (None, None) \/
+  (hf_container hf, hf_property hf) = (Some w_span, Some s_style).
 Proof.
-  intros pr H v Hv. unfold vert_okb in H. change (s2l "vertAlign"%string) with s_vertAlign in Hv.
-  rewrite Hv in H. apply orb_true_iff in H. destruct H as [H|H].
-  - apply orb_true_iff in H. destruct H as [H|H]; apply ostr_eqb_eq in H; auto.
-  - apply ostr_eqb_eq in H. auto.
+  intros k hf Hg. apply dict_get_in in Hg.
+  pose proof table_ok2 as T. rewrite forallb_forall in T. specialize (T _ Hg).
+  unfold entry_ok2 in T. cbn [fst snd] in T.
+  destruct (hf_container hf) as [c|]; destruct (hf_property hf) as [p|]; try discriminate T.
+  - apply andb_true_iff in T. destruct T as [T1 T2].
+    apply str_eqb_eq in T1. apply str_eqb_eq in T2. subst. right. reflexivity.
+  - left. reflexivity.
+Qed.
+
+Section FormatGen.
+  Variable Pb : str -> Prop.
+
+  Definition cp_invP (d : list (cp_key * list str)) : Prop :=
+    Forall (fun kv => (fst kv = (None, None) /\ Forall Pb (snd kv)) \/
+                      fst kv = (Some w_span, Some s_style)) d.
+
+  Lemma cp_add_invP : forall k v d,
+    ((k = (None, None) /\ Pb v) \/ k = (Some w_span, Some s_style)) ->
+    cp_invP d -> cp_invP (cp_add k v d).
+  Proof.
+    intros k v d Hk Hd. induction Hd as [|[k' vs] r Hk' Hr IH]; cbn [cp_add].
+    - constructor; [|constructor]. cbn [fst snd].
+      destruct Hk as [[Hk Hv]|Hk]; [left|right; exact Hk].
+      split; [exact Hk|]. constructor; [exact Hv|constructor].
+    - cbn [fst snd] in *. destruct (cp_eqb k k') eqn:E.
+      + apply cp_eqb_eq in E. subst k'. constructor; [|exact Hr]. cbn [fst snd].
+        destruct Hk' as [[Hk' Hvs]|Hk']; [|right; exact Hk'].
+        left. split; [exact Hk'|]. apply Forall_app. split; [exact Hvs|].
+        destruct Hk as [[_ Hv]|Hk]; [constructor; [exact Hv|constructor]|].
+        rewrite Hk in Hk'. discriminate Hk'.
+      + constructor; [|exact IH]. exact Hk'.
+  Qed.
+
+  Lemma format_gen : forall pr st,
+    (forall k v hf s, In (k, v) pr -> dict_get k xml2html_table = Some hf ->
+       is_off v = false -> eval_fexpr (hf_expr hf) k (ostr v) = Ok s ->
+       (hf_container hf, hf_property hf) = (None, None) -> Pb s) ->
+    format_Pr_into_html pr xml2html_table = Ok st ->
+    Forall (fun x => Pb x \/ span_like x) st.
+  Proof.
+    intros pr st HP H. unfold format_Pr_into_html in H.
+    bind_inv H as cp E.
+    assert (Hcp : cp_invP cp).
+    { eapply (foldM_inv cp_invP); [|constructor|exact E].
+      intros d [k v] d' Hin Hd Hs. cbn [fst snd] in Hs.
+      destruct (dict_get k xml2html_table) as [hf|] eqn:Eg.
+      - destruct (is_off v) eqn:Eoff; [injection Hs as <-; exact Hd|].
+        bind_inv Hs as s Ee. injection Hs as <-.
+        apply cp_add_invP; [|exact Hd].
+        destruct (entry_kind k hf Eg) as [H1|H1]; [left|right; exact H1].
+        split; [exact H1|]. eapply HP; eauto.
+      - injection Hs as <-. exact Hd. }
+    cbv zeta in H. injection H as <-.
+    apply Forall_app. split.
+    - rewrite Forall_forall. intros x Hx. right.
+      apply in_map_iff in Hx. destruct Hx as [kv [<- Hkv]].
+      apply sort_by_In in Hkv. apply filter_In in Hkv. destruct Hkv as [Hkv Hne].
+      match type of Hkv with
+      | In _ (fold_left ?f ?l ?z) =>
+          assert (Hcon : Forall (fun kv : str * list str => fst kv = w_span) (fold_left f l z))
+      end.
+      { apply (fold_left_inv (Forall (fun kv : str * list str => fst kv = w_span))); [|constructor].
+        intros d [[c [p|]] vs] Hin Hd; cbn [fst snd]; [|exact Hd].
+        apply sort_by_In in Hin. apply filter_In in Hin. destruct Hin as [Hin _].
+        unfold cp_invP in Hcp. rewrite Forall_forall in Hcp. specialize (Hcp _ Hin).
+        cbn [fst snd] in Hcp. destruct Hcp as [[Hk _]|Hk]; [discriminate Hk|].
+        injection Hk as Hc Hp. subst c p. cbn [ostr].
+        destruct (dict_get w_span d); apply (dict_set_keys (fun k : str => k = w_span));
+          try reflexivity; exact Hd. }
+      rewrite Forall_forall in Hcon. specialize (Hcon _ Hkv). cbv beta in Hcon |- *.
+      Show. rewrite Hcon. eexists. reflexivity.
+    - destruct (find (fun kv : cp_key * list str => cp_eqb (fst kv) (None, None)) cp)
+        as [[k vs]|] eqn:F; [|constructor].
+      apply find_some in F. destruct F as [Hin Hk]. cbn [fst] in Hk. apply cp_eqb_eq in Hk.
+      unfold cp_invP in Hcp. rewrite Forall_forall in Hcp. specialize (Hcp _ Hin).
+      cbn [fst snd] in Hcp. subst k. destruct Hcp as [[_ Hvs]|Hk]; [|discriminate Hk].
+      unfold sort_strs. apply sort_by_Forall.
+      eapply Forall_impl; [|exact Hvs]. intros a Ha. left. exact Ha.
+  Qed.
+End FormatGen.
+
+Lemma vertAlign_entry : forall hf,
+  dict_get s_vertAlign xml2html_table = Some hf ->
+  hf_expr hf = [FValPrefix 3] /\ hf_container hf = None /\ hf_property hf = None.
+Proof.
+  intros hf H. vm_compute in H. injection H as <-. repeat split.
+Qed.
+
+Lemma eval_prefix3 : forall k val, eval_fexpr [FValPrefix 3] k val = Ok (firstn 3 val).
+Proof.
+  intros k val. unfold eval_fexpr. cbn [mapM eval_fpart bind concat]. rewrite app_nil_r.
+  reflexivity.
+Qed.
+
+Lemma format_words : forall pr st,
+  fw_okb pr = true -> format_Pr_into_html pr xml2html_table = Ok st -> Forall has_word st.
+Proof.
+  intros pr st Hok H.
+  assert (HF : Forall (fun x => has_word x \/ span_like x) st).
+  { apply (format_gen has_word pr st); [|exact H].
+    intros k v hf s Hin Hg Hoff He Hcp.
+    destruct (str_eqb k s_vertAlign) eqn:Ek.
+    - apply str_eqb_eq in Ek. subst k.
+      unfold fw_okb in Hok. rewrite forallb_forall in Hok. specialize (Hok _ Hin).
+      cbn [fst snd] in Hok. rewrite str_eqb_refl, Hoff in Hok. cbn [negb orb] in Hok.
+      destruct (vertAlign_entry hf Hg) as (Hx & _ & _). rewrite Hx, eval_prefix3 in He.
+      injection He as <-. unfold has_word, first_word.
+      destruct (words (firstn 3 (ostr v))) as [|w ws]; [discriminate Hok|]. eauto.
+    - apply dict_get_in in Hg.
+      pose proof table_ok as T. rewrite forallb_forall in T. specialize (T _ Hg).
+      unfold entry_ok in T. cbn [fst snd] in T. injection Hcp as Hc Hp.
+      rewrite Hc, Hp in T. change (s2l "vertAlign"%string) with s_vertAlign in T.
+      rewrite Ek in T. apply andb_true_iff in T. destruct T as [T1 T2].
+      rewrite (eval_fexpr_val_free _ k (ostr v) [] T1) in He. rewrite He in T2.
+      apply tag_okb_ok in T2. destruct T2 as (w & Hw & _). exists w. exact Hw. }
+  eapply Forall_impl; [|exact HF]. intros a [Ha|(y & ->)]; [exact Ha|].
+  exists w_span. apply first_word_span.
+Qed.
+
+(* ... and the condition is necessary *)
+Lemma forallb_false : forall {A} (f : A -> bool) l,
+  forallb f l = false -> exists x, In x l /\ f x = false.
+Proof.
+  intros A f. induction l as [|x l IH]; intro H; [discriminate H|].
+  cbn [forallb] in H. destruct (f x) eqn:E.
+  - destruct (IH H) as (y & Hy & Hf). exists y. split; [right; exact Hy|exact Hf].
+  - exists x. split; [left; reflexivity|exact E].
+Qed.
+
+Lemma foldM_app_inv : forall {A S} (f : S -> A -> res S) l1 l2 s r,
+  foldM f (l1 ++ l2) s = Ok r -> exists m, foldM f l1 s = Ok m /\ foldM f l2 m = Ok r.
+Proof.
+  intros A S f. induction l1 as [|x l1 IH]; intros l2 s r H.
+  - exists s. split; [reflexivity|exact H].
+  - cbn [app foldM] in H. bind_inv H as s1 E. destruct (IH _ _ _ H) as (m & H1 & H2).
+    exists m. split; [|exact H2]. cbn [foldM]. rewrite E. exact H1.
+Qed.
+
+Definition isNN (kv : cp_key * list str) : bool := cp_eqb (fst kv) (None, None).
+Definition holds_bare (s0 : str) (d : list (cp_key * list str)) : Prop :=
+  exists vs, find isNN d = Some ((None, None), vs) /\ In s0 vs.
+
+Lemma cp_eqb_NN : forall k, cp_eqb k (None, None) = cp_eqb (None, None) k.
+Proof. intros [[a|] [b|]]; reflexivity. Qed.
+
+Lemma cp_add_bare_new : forall s0 d, holds_bare s0 (cp_add (None, None) s0 d).
+Proof.
+  intros s0. induction d as [|[k' vs] r IH]; cbn [cp_add].
+  - exists [s0]. split; [reflexivity|left; reflexivity].
+  - destruct (cp_eqb (None, None) k') eqn:E.
+    + pose proof (cp_eqb_eq _ _ E) as <-. exists (vs ++ [s0]). split; [reflexivity|].
+      apply in_or_app. right. left. reflexivity.
+    + destruct IH as (vs' & Hf & Hin). exists vs'. split; [|exact Hin].
+      cbn [find]. unfold isNN at 1. cbn [fst]. rewrite cp_eqb_NN, E. exact Hf.
+Qed.
+
+Lemma cp_add_bare_keep : forall s0 k v d, holds_bare s0 d -> holds_bare s0 (cp_add k v d).
+Proof.
+  intros s0 k v. induction d as [|[k' vs] r IH]; intros (vs0 & Hf & Hin); [discriminate Hf|].
+  cbn [cp_add]. cbn [find] in Hf. unfold isNN at 1 in Hf. cbn [fst] in Hf.
+  destruct (cp_eqb k k') eqn:E.
+  - destruct (cp_eqb k' (None, None)) eqn:E'.
+    + injection Hf as -> ->. exists (vs0 ++ [v]). split.
+      * cbn [find]. unfold isNN at 1. cbn [fst]. reflexivity.
+      * apply in_or_app. left. exact Hin.
+    + exists vs0. split; [|exact Hin]. cbn [find]. unfold isNN at 1. cbn [fst].
+      rewrite E'. exact Hf.
+  - destruct (cp_eqb k' (None, None)) eqn:E'.
+    + injection Hf as -> ->. exists vs0. split; [|exact Hin].
+      cbn [find]. unfold isNN at 1. cbn [fst]. reflexivity.
+    + destruct (IH (ex_intro _ vs0 (conj Hf Hin))) as (vs1 & Hf1 & Hin1).
+      exists vs1. split; [|exact Hin1]. cbn [find]. unfold isNN at 1. cbn [fst].
+      rewrite E'. exact Hf1.
+Qed.
+
+Lemma format_words_necessary : forall pr st,
+  fw_okb pr = false -> format_Pr_into_html pr xml2html_table = Ok st ->
+  exists x, In x st /\ first_word x = Err IndexError.
+Proof.
+  intros pr st Hok H. unfold fw_okb in Hok.
+  destruct (forallb_false _ _ Hok) as ([k v] & Hin & Hf). cbn [fst snd] in Hf.
+  apply orb_false_iff in Hf. destruct Hf as [Hf Hw].
+  apply orb_false_iff in Hf. destruct Hf as [Hk Hoff].
+  apply negb_false_iff in Hk. apply str_eqb_eq in Hk. subst k.
+  set (s0 := firstn 3 (ostr v)) in *.
+  assert (Hs0 : first_word s0 = Err IndexError).
+  { unfold first_word. destruct (words s0); [reflexivity|discriminate Hw]. }
+  exists s0. split; [|exact Hs0].
+  unfold format_Pr_into_html in H. bind_inv H as cp E. cbv zeta in H. injection H as <-.
+  apply in_split in Hin. destruct Hin as (l1 & l2 & ->).
+  apply foldM_app_inv in E. destruct E as (d1 & _ & E).
+  cbn [foldM fst snd] in E.
+  assert (Hg : dict_get s_vertAlign xml2html_table
+               = Some {| hf_expr := fmt_format_vertAlign; hf_container := None;
+                         hf_property := None |}) by reflexivity.
+  rewrite Hg, Hoff in E. cbn [hf_expr hf_container hf_property] in E.
+  unfold fmt_format_vertAlign in E. rewrite eval_prefix3 in E. cbn [bind] in E.
+  fold s0 in E.
+  assert (Hcp : holds_bare s0 cp).
+  { eapply (foldM_inv (holds_bare s0)); [|apply cp_add_bare_new|exact E].
+    intros d [k2 v2] d' _ Hd Hs. cbn [fst snd] in Hs.
+    destruct (dict_get k2 xml2html_table) as [hf|].
+    - destruct (is_off v2); [injection Hs as <-; exact Hd|].
+      bind_inv Hs as s2 Ee. injection Hs as <-. apply cp_add_bare_keep. exact Hd.
+    - injection Hs as <-. exact Hd. }
+  destruct Hcp as (vs & Hfind & Hvs).
+  apply in_or_app. right. change (fun kv : cp_key * list str => cp_eqb (fst kv) (None, None)) with isNN.
+  rewrite Hfind. unfold sort_strs. apply sort_by_In. exact Hvs.
+Qed.
+
+(* html_close can name every tag of the style  <->  fw_okb *)
+Theorem format_words_iff : forall pr st,
+  format_Pr_into_html pr xml2html_table = Ok st ->
+  (Forall has_word st <-> fw_okb pr = true).
+Proof.
+  intros pr st H. split.
+  - intros HF. destruct (fw_okb pr) eqn:E; [reflexivity|].
+    destruct (format_words_necessary pr st E H) as (x & Hx & Hw).
+    rewrite Forall_forall in HF. destruct (HF x Hx) as (w & Hw'). rewrite Hw in Hw'.
+    discriminate Hw'.
+  - intros Hok. apply format_words; assumption.
 Qed.
 
 Theorem styles_words_ok_partial : forall e ks st,
-  (forall pr, gather_Pr e ks = Ok pr -> vert_okb pr = true) ->
-  (get_run_formatting e ks xml2html_table = Ok st ->
-   Forall (fun x => exists w, first_word x = Ok w) st) /\
-  (forall ps, get_pStyle e ks = Ok ps -> str_eqb s_vertAlign ps = false ->
-   get_paragraph_formatting e ks xml2html_table = Ok st ->
-   Forall (fun x => exists w, first_word x = Ok w) st).
+  (forall pr, gather_Pr e ks = Ok pr -> fw_okb pr = true) ->
+  (get_run_formatting e ks xml2html_table = Ok st -> Forall has_word st) /\
+  (forall ps, get_pStyle e ks = Ok ps -> str_eqb ps s_vertAlign = false ->
+   get_paragraph_formatting e ks xml2html_table = Ok st -> Forall has_word st).
 Proof.
   intros e ks st Hpr. split.
   - intros H. unfold get_run_formatting in H. bind_inv H as pr E.
-    assert (HF : Forall (fun x => exists w, first_word x = Ok w /\ in_vocab w = true) st).
-    { eapply format_vocab_partial; [eapply gather_Pr_nodup; exact E| |exact H].
-      apply vert_okb_vals_ok. apply Hpr. reflexivity. }
-    eapply Forall_impl; [|exact HF]. intros a (w & Hw & _). eauto.
-  - intros ps Hps Hne H. unfold get_paragraph_formatting in H. rewrite Hps in H. cbn [bind] in H.
-    assert (HF : Forall (fun x => exists w, first_word x = Ok w /\ in_vocab w = true) st).
-    { eapply format_vocab_partial; [| |exact H].
-      - cbn. constructor; [intros []|constructor].
-      - intros v Hv. change (s2l "vertAlign"%string) with s_vertAlign in Hv.
-        cbn [dict_get] in Hv. rewrite Hne in Hv. discriminate Hv. }
-    eapply Forall_impl; [|exact HF]. intros a (w & Hw & _). eauto.
+    eapply format_words; [|exact H]. apply Hpr. reflexivity.
+  - intros ps Hps Hne H. unfold get_paragraph_formatting in H. rewrite Hps in H.
+    cbn [bind] in H. eapply format_words; [|exact H].
+    unfold fw_okb. cbn [forallb fst snd]. rewrite Hne. reflexivity.
 Qed.
+
+(* the hypothesis is satisfiable by a run that does carry a vertAlign *)
+Example fw_okb_example :
+  fw_okb [(s2l "b"%string, None); (s_vertAlign, Some (s2l "superscript"%string))] = true /\
+  fw_okb [(s_vertAlign, None)] = false.
+Proof. split; reflexivity. Qed.
 
 (* ================================================================== *)
 (* PART 6 — a concrete document (non-vacuity)                           *)
